@@ -10,13 +10,20 @@
    call per item) returns exactly the recursion's event sequence, for every snapshot, option record,
    pre_op and start, links followed or not, whenever the recursion is defined and the fuel covers its
    steps; Memfs/WalkTerm.v proves both always hold when links are not followed (termination within
-   fuel: at most three machine steps per entry under the start).  PARTIAL: with links followed,
-   termination is exercised (the driver also compares machine and recursion on every explored call),
-   not proved; the order relations and the exact multiset are read off the recursion and judged on
-   every explored case by tools/walkspec.py (stream walk-valid). *)
+   fuel: at most three machine steps per entry under the start).  Memfs/WalkExact.v reads the
+   property off the recursion for every well-formed Memfs state, links not followed, no pre_op error:
+   the traversal yields no error and exactly the entries at or below the start that the depth window
+   and the dirs/files filter select - all of them, nothing else, each once; an entry comes before
+   everything below it (after, with contents_first); with a sort installed siblings come in name order,
+   grouped by kind with dirs_first / files_first; and paths/dirs/files/all_* return exactly the entries
+   strictly below an existing directory (one level for the shallow helpers) of the asked kind, each
+   once, never the argument.  PARTIAL: with links followed (contents of a link's target once per
+   followed link, LinkLooping on a cycle) the machine = recursion theorem applies but termination, and
+   hence the denotation, is exercised (driver comparison machine vs recursion on every explored call;
+   tools/walkspec.py judges the yielded multiset), not proved. *)
 From stdpp Require Import gmap.
 From Coq Require Import NArith.
-From RV Require Import Base.Str Path.Helpers Memfs.State Memfs.Walk Memfs.WalkFacts Memfs.WalkSpec Memfs.WalkTerm.
+From RV Require Import Base.Str Path.Helpers Memfs.State Memfs.Walk Memfs.WalkFacts Memfs.WalkSpec Memfs.WalkTerm Memfs.WalkExact Memfs.Wf Memfs.Ops Memfs.WalkOps Path.Expand.
 
 Theorem C08_walk_no_panic : forall sn o pre p, walk sn o pre p <> inl Panic.
 Proof. exact walk_no_panic. Qed.
@@ -52,3 +59,37 @@ Theorem C08_walk_nofollow_terminates : forall (E : gmap (list (list N)) entry) o
   key_ok E -> o_follow o = false -> walk E o pre rootp <> inl OutOfFuel.
 Proof. exact walk_nofollow_terminates. Qed.
 Print Assumptions C08_walk_nofollow_terminates.
+
+(* exactly the selected entries, no errors, each once *)
+Theorem C08_walk_exact : forall m o pre rootp r, WF m -> o_follow o = false -> (forall x, pre x = None) -> m_ents m !! rootp = Some r ->
+  exists evs, walk (m_ents m) o pre rootp = inl (Done evs) /\
+    items_of evs = map IOk (oks evs) /\
+    (forall x, x ∈ oks evs <-> exists q, m_ents m !! q = Some x /\ rootp `suffix_of` q /\
+                          selected o (length q - length rootp) x = true /\ le_max (length q - length rootp) (o_max o) = true) /\
+    NoDup (map e_path (oks evs)).
+Proof. exact walk_exact. Qed.
+Print Assumptions C08_walk_exact.
+
+(* parents before their contents, after them with contents_first *)
+Theorem C08_walk_order : forall m o pre rootp r evs, WF m -> o_follow o = false -> (forall x, pre x = None) -> m_ents m !! rootp = Some r ->
+  walk (m_ents m) o pre rootp = inl (Done evs) ->
+  forall x y, x ∈ oks evs -> y ∈ oks evs -> strictly_above x y ->
+    if o_contents_first o then before (oks evs) y x else before (oks evs) x y.
+Proof. exact walk_order. Qed.
+Print Assumptions C08_walk_order.
+
+(* siblings in name order, grouped by kind with dirs_first / files_first *)
+Theorem C08_walk_siblings : forall m o pre rootp r evs, WF m -> o_follow o = false -> (forall x, pre x = None) -> o_sort o = true ->
+  m_ents m !! rootp = Some r -> walk (m_ents m) o pre rootp = inl (Done evs) ->
+  forall x y q n n', x ∈ oks evs -> y ∈ oks evs -> e_path x = n :: q -> e_path y = n' :: q -> n <> n' -> sib_le o x y = true ->
+    before (oks evs) x y.
+Proof. exact walk_siblings. Qed.
+Print Assumptions C08_walk_siblings.
+
+(* the listing helpers *)
+Theorem C08_listing_exact : forall env m k s p, WF m -> resolve env m s = inl p -> is_dir_at m p = true ->
+  exists es, listing_op env m k s = Done (inl (map (fun e => render_rpath (e_path e)) es)) /\ NoDup (map e_path es) /\
+    forall x, x ∈ es <-> exists q, m_ents m !! q = Some x /\ p `suffix_of` q /\ q <> p /\
+                     (shallow k = true -> length q = S (length p)) /\ kind_sel k x = true.
+Proof. exact listing_exact. Qed.
+Print Assumptions C08_listing_exact.
